@@ -264,6 +264,7 @@ fn hexcap(b: &[u8]) -> String {
     if b.len() > 20_000 { format!("{}... ({} bytes in all)", emit::hex(&b[..20_000]), b.len()) } else { emit::hex(b) }
 }
 
+thread_local! { static MINED: Vec<usize> = crate::mined_ints("type-length-value/src", 300, 200_000).into_iter().rev().take(4).collect(); }
 pub fn run(ctx: &Ctx) -> Report {
     let mut rep = Report::new("C15");
     rep.corr_module = "AccountRealloc".into();
@@ -318,6 +319,8 @@ pub fn run(ctx: &Ctx) -> Report {
         let nent = rng.range(1, 5) as usize;
         // values above the runtime's 10 KiB growth budget (a shrink followed by a larger regrowth is legal
         // as long as the account stays within original size + 10 KiB), and an account at the 10 MiB mark
+        // bounds the sources under test spell out, as value sizes (read at run time)
+        let mined: Vec<usize> = MINED.with(|m| m.clone());
         let mode_big = !to_coq && k % 11 == 3;
         let mode_huge = !to_coq && (k == n_coq + 1 || k == n_coq + 12);
         if mode_big { rep.count("account:value>10KiB"); }
@@ -373,6 +376,7 @@ pub fn run(ctx: &Ctx) -> Report {
             let room = cur.saturating_sub(if borsh { 4 } else { 0 });
             let l = match rng.below(14) {
                 _ if mode_huge && cur < 1000 => room + *rng.pick(&[50usize, 49, 51]),
+                _ if mode_big && !mined.is_empty() && rng.chance(1, 4) => *rng.pick(&mined) + *rng.pick(&[0usize, 1, 2]),
                 _ if mode_big && rng.chance(1, 2) => *rng.pick(&[100usize, 10_239, 10_240, 10_241, 11_000, 12_000, cur.saturating_sub(10_241), cur + 10_236]),
                 0 => room,
                 1 => room + 1,
